@@ -25,6 +25,10 @@ Bits8(k) ==
     [] k = "80" -> <<1,0,0,0,0,0,0,0>>
     [] k = "81" -> <<1,0,0,0,0,0,0,1>>
 
+(* table form (the CASE is evaluated once per key) *)
+Bits8Tab == [k \in U |-> Bits8(k)]
+Bits8T(k) == Bits8Tab[k]
+
 VARIABLES log, hmap, hyps, armed
 vars == <<log, hmap, hyps, armed>>
 
